@@ -98,6 +98,7 @@ func compositionAcrossFiles(c *engine.Ctx, fails *int) []*core.PResult {
 		r := c.R
 		nf := r.Range(2, 3)
 		chain := r.P(0.5)
+		noIDs := i%3 == 2
 		kind := "allOf"
 		if r.P(0.3) {
 			kind = "anyOf"
@@ -196,6 +197,12 @@ func compositionAcrossFiles(c *engine.Ctx, fails *int) []*core.PResult {
 			doc["title"] = fmt.Sprintf("File%d", k)
 			if k == 0 {
 				doc["$id"] = "urn:main"
+			}
+			if noIDs {
+				// no document says who it is: whatever is kept per schema id is then kept under the same (empty) id
+				delete(doc, "$id")
+			}
+			if k == 0 {
 				mainSchema = doc
 			} else {
 				files["main/"+f.path] = core.MustJSON(doc)
@@ -208,11 +215,18 @@ func compositionAcrossFiles(c *engine.Ctx, fails *int) []*core.PResult {
 		cfg.FileName = "main/schema.json"
 		rf.Cfg = cfg
 		rf.SchemaID = "urn:main"
+		if noIDs {
+			rf.SchemaID = ""
+			rf.Cfg.RootType = ""
+		}
 		rf.Files = files
 		pcs = append(pcs, in, rf)
 		lay := "star"
 		if chain {
 			lay = "chain"
+		}
+		if noIDs {
+			lay += "/no-$id"
 		}
 		layouts = append(layouts, fmt.Sprintf("%s/%s/%d-files", kind, lay, nf))
 	}
